@@ -107,11 +107,19 @@ def _wav(s, w, rate):
     return audio.Wav(c16._enc(s, w), [1, w, rate, len(s), "NONE", "not compressed"])
 
 
+_TIMEOUTS = [0]
+
+
 def _with_alarm(fn, secs=3.0):
     old = signal.signal(signal.SIGALRM, _alarm)
-    signal.setitimer(signal.ITIMER_REAL, secs)
+    # once non-termination has been seen several times the verdict is settled: later calls get a short leash,
+    # so that a search that never gives up does not cost three seconds per case
+    signal.setitimer(signal.ITIMER_REAL, secs if _TIMEOUTS[0] < 6 else 0.2)
     try:
         return fn()
+    except Timeout:
+        _TIMEOUTS[0] += 1
+        raise
     finally:
         signal.setitimer(signal.ITIMER_REAL, 0)
         signal.signal(signal.SIGALRM, old)
